@@ -306,7 +306,7 @@ def c07_s5(ctx):
             pr.append("condition <- %s" % expr_str(fl.get("condition", ("other",))))
         if expr_str(fl.get("file_size", ("other",))) != "self.metadata.file_size":
             pr.append("file_size <- %s (expected self.metadata.file_size)" % expr_str(fl.get("file_size", ("other",))))
-        if expr_str(fl.get("checksum", ("other",))) != "SendTransaction::get_checksum(self)":
+        if expr_str(fl.get("checksum", ("other",))) not in ("SendTransaction::get_checksum(self)", "(SendTransaction::get_checksum(self))@Ok.0"):
             pr.append("checksum <- %s (expected get_checksum())" % expr_str(fl.get("checksum", ("other",)))[:120])
         key = "SendTransaction::%s:EndOfFile" % f.name
         if pr:
